@@ -28,6 +28,7 @@ RULE = (
     "permutation of each participant's storage order, one participant at a time; all joint permutations when "
     "every participant has <= 3 dims). Non-trivial = permuted participant has >= 2 dims and the permutation is "
     "not the identity; every permuted variant is run with three rotations of the value-buffer provenances (C, Fortran, strided view) over the participants. Distinct by construction."
+    " Also: pipelines (used operands, derived operands, x**y twice, writes into cast / sum / slice results), from_dims_superset, a frame without two single-item dimensions."
 )
 ASSUMPTIONS = [
     "values are integer label codes (exact sums in any summation order); divisors are powers of two",
